@@ -508,3 +508,69 @@ pub fn cmd_sched_one(a: &Args) {
     }
     println!("{}", json!({"problems": prob, "case": case}));
 }
+
+/// fv seqproto: the single-thread entry point driven by sources that record every `read_samples` call;
+/// the call sequence and the result are validated against EncoderSeq.tla by TraceSeq.tla.
+pub fn cmd_seqproto(a: &Args) {
+    let out = a.get("out", "/verif/.work/seq/seq.ndjson");
+    if let Some(d) = std::path::Path::new(&out).parent() {
+        std::fs::create_dir_all(d).unwrap();
+    }
+    let thorough = a.get("tier", "quick") == "thorough";
+    let mut w = std::io::BufWriter::new(std::fs::File::create(&out).unwrap());
+    let mut n = 0usize;
+    let mut classes = BTreeSet::new();
+    let bs = 32usize;
+    let maxn = if thorough { 6 } else { 4 };
+    for nblocks in 0..=maxn {
+        for last_len in [1usize, 17, bs] {
+            if nblocks == 0 && last_len != bs {
+                continue;
+            }
+            let mut fails: Vec<Option<usize>> = vec![None];
+            fails.extend((0..=nblocks + 1).map(Some));
+            for fail_at in fails {
+                let mut bads: Vec<Vec<usize>> = vec![vec![]];
+                bads.extend((0..nblocks).map(|b| vec![b]));
+                if nblocks >= 3 {
+                    bads.push(vec![0, 2]);
+                    bads.push(vec![1, nblocks - 1]);
+                }
+                for bad in bads {
+                    for (ch, bps, fill_at_eof) in [(1usize, 16usize, true), (2, 8, false)] {
+                        let case = ParCase {
+                            id: format!("seq-{n}"),
+                            ch, bps, bs, nblocks, last_len, workers: 1, fail_at, bad: bad.clone(), fill_at_eof,
+                            bytes_delivery: false, hint: n % 2 == 0, seed: 4242 + n as u64,
+                        };
+                        let log = std::sync::Arc::new(std::sync::Mutex::new(vec![]));
+                        let mut src = case.source();
+                        src.log = Some(log.clone());
+                        let res = crate::enc::encode(&case.cfg(), src, &crate::enc::Mode::St);
+                        let (outcome, info) = match &res {
+                            crate::enc::Outcome::Ok(s) => {
+                                let si = s.stream_info();
+                                ("ok".to_string(), json!({"minbs": si.min_block_size(), "maxbs": si.max_block_size(), "total": si.total_samples(), "nframes": s.frame_count()}))
+                            }
+                            crate::enc::Outcome::Err(k, _) => (format!("err:{k}"), json!({"minbs": 0, "maxbs": 0, "total": 0, "nframes": 0})),
+                            crate::enc::Outcome::Panic(_) => ("panic".to_string(), json!({"minbs": 0, "maxbs": 0, "total": 0, "nframes": 0})),
+                        };
+                        let len = if nblocks == 0 { 0 } else { (nblocks - 1) * bs + last_len };
+                        serde_json::to_writer(&mut w, &json!({"ev": "seq", "id": case.id, "bs": bs, "len": len, "fail": fail_at.map_or(99, |k| k as i64), "bad": bad})).unwrap();
+                        w.write_all(b"\n").unwrap();
+                        for (k, (arg, ret)) in log.lock().unwrap().iter().enumerate() {
+                            serde_json::to_writer(&mut w, &json!({"ev": "read", "k": k, "arg": arg, "ret": ret})).unwrap();
+                            w.write_all(b"\n").unwrap();
+                        }
+                        serde_json::to_writer(&mut w, &json!({"ev": "done", "result": outcome, "info": info})).unwrap();
+                        w.write_all(b"\n").unwrap();
+                        classes.insert(format!("{nblocks}/{}/{}/{}", last_len == bs, fail_at.is_some(), bad.len()));
+                        n += 1;
+                    }
+                }
+            }
+        }
+    }
+    w.flush().unwrap();
+    println!("{}", json!({"cases": n, "classes": classes.len(), "files": [out]}));
+}
